@@ -22,7 +22,7 @@ def _light_snapshot():
     def ctx(c):
         return [c.prec, c.rounding, c.Emin, c.Emax, c.capitals, c.clamp, sorted((str(k), bool(v)) for k, v in c.traps.items())]
 
-    return {
+    snap = {
         "sys.path": list(sys.path),
         "warnings.filters": repr(list(warnings.filters)),
         "os.environ": sorted(os.environ.items()),
@@ -33,6 +33,43 @@ def _light_snapshot():
         "decimal.BasicContext": ctx(decimal.BasicContext),
         "decimal.ExtendedContext": ctx(decimal.ExtendedContext),
     }
+    snap.update(process_settings())
+    return snap
+
+
+def process_settings():
+    """Further process-wide settings a calculator library has no business touching, at import or later
+    (same spirit as the four items the statement lists). Every value is a short string."""
+    import gc
+    import locale
+    import logging
+    import random
+    import signal
+    import threading
+
+    try:
+        import builtins
+    except ImportError:  # Python 2
+        import __builtin__ as builtins
+    out = {}
+    out["logging.root"] = repr((logging.root.level, [type(h).__name__ for h in logging.root.handlers], logging.root.disabled,
+                                logging.root.manager.disable, logging.raiseExceptions, logging.getLoggerClass().__name__))
+    out["sys.hooks"] = repr((id(sys.excepthook), id(sys.displayhook), id(getattr(threading, "excepthook", None)),
+                             id(getattr(sys, "unraisablehook", None))))
+    out["sys.settings"] = repr((getattr(sys, "getswitchinterval", lambda: None)(), sys.dont_write_bytecode, gc.isenabled(), gc.get_threshold()))
+    out["builtins"] = repr(sorted((k, id(v)) for k, v in vars(builtins).items() if k != "_"))
+    try:
+        out["signal.SIGINT"] = repr(signal.getsignal(signal.SIGINT))
+    except ValueError:
+        pass
+    try:
+        out["locale"] = repr(locale.setlocale(locale.LC_ALL, None))
+    except Exception:  # noqa: B902
+        pass
+    out["random.getstate"] = repr(hash(random.getstate()))
+    out["sys.meta_path/path_hooks"] = repr(([type(x).__name__ if not isinstance(x, type) else x.__name__ for x in sys.meta_path], len(sys.path_hooks)))
+    out["sys.stdio.originals"] = repr((id(sys.__stdout__), id(sys.__stderr__), id(sys.__stdin__)))
+    return out
 
 
 class _Rec(object):
@@ -64,14 +101,19 @@ def serve(repo, verif):
     rec_out, rec_err = _Rec(), _Rec()
     saved = sys.stdout, sys.stderr
     sys.stdout, sys.stderr = rec_out, rec_err
+    lib_only = set(process_settings())
     try:
         import cvss  # noqa: F401
-        import cvss.cvss_calculator  # noqa: F401
         import cvss.parser  # noqa: F401
+
+        middle = _light_snapshot()
+        # the module of the command-line entry point: held to the items the statement lists, not to
+        # the further settings (a CLI may e.g. call locale.setlocale at its start)
+        import cvss.cvss_calculator  # noqa: F401
     finally:
         sys.stdout, sys.stderr = saved
     after = _light_snapshot()
-    effects = sorted(k for k in before if before[k] != after[k])
+    effects = sorted(k for k in before if before[k] != middle[k] or (k not in lib_only and middle[k] != after[k]))
     if rec_out.data:
         effects.append("writes-stdout")
     if rec_err.data:
